@@ -161,3 +161,21 @@ Proof.
     nia. }
   unfold f_round. apply Z.div_le_lower_bound; [lia|]. nia.
 Qed.
+
+Lemma rnd53_nonneg n d : 0 <= n -> 0 < d -> 0 <= f_num (rnd53 n d).
+Proof.
+  intros Hn Hd. unfold rnd53. destruct (n <=? 0); [cbn; lia|].
+  set (s0 := Z.log2 n - Z.log2 d - 52).
+  assert (Hsc : forall s, 0 <= fst (scale_frac n d s) /\ 0 < snd (scale_frac n d s)).
+  { intros s. unfold scale_frac. destruct (0 <=? s) eqn:E; cbn.
+    - apply Z.leb_le in E. split; [lia|]. apply Z.mul_pos_pos; [lia|]. apply Z.pow_pos_nonneg; lia.
+    - apply Z.leb_gt in E. split; [|lia]. apply Z.mul_nonneg_nonneg; [lia|]. apply Z.pow_nonneg. lia. }
+  destruct (scale_frac n d s0) as [n1 d1].
+  set (s := if n1 / d1 <? 2 ^ 52 then s0 - 1 else s0).
+  specialize (Hsc s). destruct (scale_frac n d s) as [n2 d2]. cbn [fst snd] in Hsc.
+  assert (Hq : 0 <= rne (n2 / d2) (n2 mod d2) d2).
+  { pose proof (rne_ge (n2 / d2) (n2 mod d2) d2). assert (0 <= n2 / d2) by (apply Z.div_pos; lia). lia. }
+  unfold f_num. cbn [fm fe]. destruct (0 <=? s); [|exact Hq].
+  apply Z.mul_nonneg_nonneg; [exact Hq|]. apply Z.pow_nonneg. lia.
+Qed.
+
